@@ -119,7 +119,7 @@ def run_tlc(module, cfg_text, workdir, env=None, workers=1, extra=(), timeout=36
     with open(cfg, 'w') as f:
         f.write(cfg_text)
     meta = os.path.join(workdir, 'meta')
-    cmd = ['java', '-XX:+UseParallelGC', '-Xmx' + heap, '-cp', TLA_JAR, 'tlc2.TLC',
+    cmd = ['java', '-XX:+UseParallelGC', '-Xss512m', '-Xmx' + heap, '-cp', TLA_JAR, 'tlc2.TLC',
            '-workers', str(workers), '-metadir', meta, '-noGenerateSpecTE',
            '-config', cfg]
     if not deadlock:
@@ -191,7 +191,9 @@ def tlc_batch(module, cfg_text, cases, workdir, shards=None, env=None, timeout=3
     wall = 0.0
     for i, r in enumerate(results):
         if not r.ok:
-            tail = '\n'.join(r.out.splitlines()[-40:])
+            lines = r.out.splitlines()
+            first = next((j for j, l in enumerate(lines) if l.startswith('Error')), max(0, len(lines) - 40))
+            tail = '\n'.join(lines[first:first + 25] + ['...'] + lines[-6:])
             raise MachineryError('TLC failed on %s shard %d (rc=%s):\n%s' % (module, i, r.rc, tail))
         gen += r.generated
         dist += r.distinct
